@@ -81,6 +81,12 @@ func init() {
 		// C01.offsets: the sealing closures run sequentially in spawn order (interleavings: C01.seal)
 		"(*golang.org/x/sync/errgroup.Group).Go":   "c01Model_errgroupGo",
 		"(*golang.org/x/sync/errgroup.Group).Wait": "c01Model_errgroupWait",
+		// C01.e2e / C01.read: the carv2 reader of a local CARv1 file (mmap + offset reader)
+		"(*github.com/ipld/go-car/v2.Reader).DataReader": "c01Model_carv2DataReader",
+		// C01.verify: the sig-exists reader used by `index --verify`
+		repo + "bucketteer.Open":                 "c01Model_bucketteerOpen",
+		"(*" + repo + "bucketteer.Reader).Has":   "c01Model_bucketteerHas",
+		"(*" + repo + "bucketteer.Reader).Close": "c01Model_bucketteerReaderClose",
 		// CAR header CBOR codec (reflection-driven refmt): cut in C01.section / C01.e2e
 		"github.com/ipfs/go-ipld-cbor.DecodeInto": "c01Model_cborDecodeInto",
 		"github.com/ipld/go-car.WriteHeader":      "c01Model_carWriteHeader",
